@@ -19,14 +19,17 @@ type c06Replay struct {
 var c06Oracles = eng.Oracles{Content: true, Store: true, Reopen: true, Durable: true}
 
 func genC06Program(r *eng.Rng, th bool) *eng.Program {
-	cfg := eng.GenConfig(r, "store", false)
+	// a third of the programs use the order-sensitive merge operator: a
+	// round that is retried after a failure must not fold operands twice
+	merge := r.Chance(1, 3)
+	cfg := eng.GenConfig(r, "store", merge)
 	cfg.KeepFiles = false
 	cfg.MaxDirtyOps, cfg.MaxDirtyKeyValBytes = 0, 0
 	if cfg.Concern == 1 && r.Chance(1, 2) {
 		cfg.LevelMaxSegments = r.Pick(1, 2)
 	}
 	cfg.BufferPages = r.Pick(0, 1, 1, 2)
-	gp := eng.GenParams{MinBatches: 3, MaxBatches: 6, NKeys: 5 + r.Intn(6), Children: r.Chance(1, 4), Idle: true}
+	gp := eng.GenParams{MinBatches: 3, MaxBatches: 6, NKeys: 5 + r.Intn(6), Children: r.Chance(1, 4), Idle: true, Merge: merge}
 	if r.Chance(1, 3) {
 		gp.WideKeys = 150 + r.Intn(300) // several pages of compaction output => several buffered writes
 	}
